@@ -13,6 +13,7 @@ import Sqroot.Model.Format
 import Sqroot.Model.Search
 import Sqroot.Model.Positions
 import Sqroot.Model.Printer
+import Sqroot.Model.Fprint
 import Sqroot.Model.Ctor
 namespace Sqroot.Driver
 open Sqroot.Model
@@ -461,9 +462,20 @@ def modelStmt (ver : Version) (mn : MNum) (st : MSt) (s : Stmt) : String × MSt 
         match s with
         | .fpr _ _ _ mode k =>
           if k % 13 != 0 ∧ k > 3 then ("?", unknownMemo st) else
-          (match printRun ver { w := faultWriter mode k } maxDigits ps fs with
-           | .ok r => (s!"{r.written}/{r.err}/{hexOf r.accepted}", unknownMemo st)
-           | .error p => (p.tag, unknownMemo st))
+          -- on a counting source the implementation also reports the calls the source received
+          -- after the writer's fault: none (`rangesFault3`: nothing is requested once the error is latched)
+          let after := if mn.counting then "/0" else ""
+          (match (st.handles[h]? : Option MH) with
+           | some (.h3 v) =>
+             -- v3: exact requests of the early-exit loops
+             (match fprintFault3 c st.memo { w := faultWriter mode k } ps v ranges with
+              | some (.ok (r, mF)) => (s!"{r.written}/{r.err}/{hexOf r.accepted}{after}", { st with memo := mF })
+              | some (.error p) => (p.tag, unknownMemo st)
+              | none => ("?", unknownMemo st))
+           | _ =>
+             (match printRun ver { w := faultWriter mode k } maxDigits ps fs with
+              | .ok r => (s!"{r.written}/{r.err}/{hexOf r.accepted}{after}", unknownMemo st)
+              | .error p => (p.tag, unknownMemo st)))
         | _ =>
           (match printRun ver reliableSink maxDigits ps fs with
            | .ok r => (hexOf r.accepted, if isV3 then { st with memo := m' } else unknownMemo st)
@@ -484,9 +496,11 @@ def modelStmt (ver : Version) (mn : MNum) (st : MSt) (s : Stmt) : String × MSt 
           (match s with
            | .fwr _ _ mode k =>
              if k % 13 != 0 ∧ k > 3 then ("?", unknownMemo st) else
-             (match printRun ver { w := faultWriter mode k } maxDigits ps [xs] with
-              | .ok r => (s!"{r.written}/{r.err}/{hexOf r.accepted}", unknownMemo st)
-              | .error p => (p.tag, unknownMemo st))
+             let after := if mn.counting then "/0" else ""
+             (match fwriteFault3 c st.memo { w := faultWriter mode k } ps v xs.length with
+              | some (.ok (r, mF)) => (s!"{r.written}/{r.err}/{hexOf r.accepted}{after}", { st with memo := mF })
+              | some (.error p) => (p.tag, unknownMemo st)
+              | none => ("?", unknownMemo st))
            | _ =>
              (match printRun ver reliableSink maxDigits ps [xs] with
               | .ok r => (hexOf r.accepted, { st with memo := m2 })
